@@ -407,6 +407,9 @@ func c16(x *mon.Ctx) {
 					m = mon.BuildMessage(q)
 					withSpare(m, 64)
 				}
+				if form == "wire" {
+					addUnknownFields(m) // decoded from the wire of a peer with a newer schema: fields this schema does not define are kept by the runtime
+				}
 				vo, _ := mon.Options(s.c)
 				po := policyFor(q, 32)
 				if len(call.name)%2 == 0 { // half of the calls: a policy with "do not care" entries in its lists
@@ -1136,4 +1139,23 @@ func FirstUse() string {
 		}
 	}
 	return "ok"
+}
+
+// addUnknownFields gives the message and its sub-messages (down to the QE report) fields its schema does not define, as a message
+// decoded from the wire of a newer peer carries them: hidden state of the runtime that belongs to the caller's message like any field.
+func addUnknownFields(m *pb.QuoteV4) {
+	u := []byte{0xc0, 0x3e, 0x01, 0xca, 0x3e, 0x05, 'n', 'e', 'w', 'e', 'r'} // field 1000 varint 1; field 1001 bytes "newer"
+	set := func(pm proto.Message) {
+		if pm != nil && pm.ProtoReflect().IsValid() {
+			pm.ProtoReflect().SetUnknown(append([]byte(nil), u...))
+		}
+	}
+	set(m)
+	set(m.GetHeader())
+	set(m.GetTdQuoteBody())
+	set(m.GetSignedData())
+	set(m.GetSignedData().GetCertificationData())
+	set(m.GetSignedData().GetCertificationData().GetQeReportCertificationData())
+	set(m.GetSignedData().GetCertificationData().GetQeReportCertificationData().GetQeReport())
+	set(m.GetSignedData().GetCertificationData().GetQeReportCertificationData().GetPckCertificateChainData())
 }
